@@ -47,6 +47,9 @@ def cases(tier):
                 out.append({"fam": "s3", "pts": S, "pl": pl})
             for st in STRETCH:
                 out.append({"fam": "s3", "pts": S, "pl": pq[(si % 7) + 1], "stretch": st})
+            if si % 5 == 0:
+                for pl in A.placements_tiny():
+                    out.append({"fam": "s3", "pts": S, "pl": pl})
             # vertex orders
             if k == 4 or (k == 5 and (tier == "thorough" or si % 7 == 0)):
                 orders = A.all_orders(k)
